@@ -203,6 +203,20 @@ def _fold_int_class_consts(fn, folder, c):
     return fold_int_class_attrs(fn, folder, c)
 
 
+LUBA_RX_EVENT_INFO = (1, 32)
+
+
+def _ranges(xs):
+    out, i = [], 0
+    while i < len(xs):
+        j = i
+        while j + 1 < len(xs) and xs[j + 1] == xs[j] + 1:
+            j += 1
+        out.append("%d" % xs[i] if i == j else "%d..%d" % (xs[i], xs[j]))
+        i = j + 1
+    return ", ".join(out) or "none"
+
+
 def _check_luba_dispatch(run, world, folder, mod, c):
     """Which LUBA event messages deliver an item: per delivery site, the
     conditions of the paths reaching it are evaluated for every value of the
@@ -280,6 +294,7 @@ def _check_luba_dispatch(run, world, folder, mod, c):
             nsites += 1
             d = path_conds(cfg, n, tree, what="R-FSM-DISPATCH")
             types = set()
+            sbytes = set()
             decided = False
             for sbyte in range(256):
                 for conj in d:
@@ -289,7 +304,20 @@ def _check_luba_dispatch(run, world, folder, mod, c):
                         decided = True
                     if all(v is UNKNOWN or v == pol for v, pol in vals):
                         types.add(sbyte >> 6)
+                        sbytes.add(sbyte)
                         break
+            if decided and types == {want} and want == 2:
+                # a received frame's Event Info is its number of bits, 1..32
+                # (62 / 63 report errors): each of those lengths is delivered
+                infos = sorted(b & 0x3f for b in sbytes)
+                lo_, hi_ = LUBA_RX_EVENT_INFO
+                run.ob("R-FSM-DISPATCH", "%s#%s[event info]" % (P, q),
+                       infos == list(range(lo_, hi_ + 1)),
+                       "self.%s is fed by received-frame events with Event "
+                       "Info %s; the protocol delivers a frame for every "
+                       "Event Info %d..%d (the number of bits) and for no "
+                       "other" % (q, _ranges(infos), lo_, hi_),
+                       where(mod, n))
             run.ob("R-FSM-DISPATCH", "%s#%s" % (P, q),
                    decided and types == {want},
                    "self.%s is fed by event messages of type %s (bits 7..6 "
@@ -682,6 +710,49 @@ def _check_proto(run, world, folder, mod, c):
             x.target) == "self._rx_received_len" for x in _walk_stmts(body))
         if "stay" in nx and state != start_state and not counts:
             stay_ok = False
+    # reset() empties the receive buffer (every slot None): nothing reads a
+    # slot after it on the same pass - a log line formatting
+    # `self._buffer[0]:02x` there raises TypeError out of data_received
+    from ..cfg import forward as _fwd
+    for (state, body, node) in branches:
+        stub_ = ast.FunctionDef(name="state_" + state, args=ast.arguments(
+            posonlyargs=[], args=[ast.arg("self"), ast.arg(arg)],
+            kwonlyargs=[], kw_defaults=[], defaults=[]), body=list(body) or
+            [ast.Pass()], decorator_list=[], returns=None, type_comment=None,
+            type_params=[])
+        ast.fix_missing_locations(stub_)
+        from ..cfg import default_may_raise as _dmr
+        scfg = CFG(stub_, may_raise=_dmr, name=P + "#" + state)
+
+        def tr_(n_, st_):
+            a_ = n_.ast
+            if a_ is None or n_.kind not in ("stmt", "test"):
+                return st_
+            if any(isinstance(x, ast.Subscript) and isinstance(
+                    x.ctx, ast.Store) and unparse(x.value) == "self._buffer"
+                    for x in ast.walk(a_)):
+                st_ = st_ - {"emptied"}
+            if any(isinstance(x, ast.Call) and unparse(x.func) ==
+                   "self.reset" for x in ast.walk(a_)):
+                st_ = st_ | {"emptied"}
+            return st_
+        IN_ = _fwd(scfg, tr_, must=False)
+        for n_ in scfg.reachable:
+            if n_.ast is None or n_.kind not in ("stmt", "test"):
+                continue
+            if "emptied" not in IN_.get(n_.id, frozenset()):
+                continue
+            rd_ = [x for x in ast.walk(n_.ast) if isinstance(
+                x, ast.Subscript) and isinstance(x.ctx, ast.Load) and
+                unparse(x.value) == "self._buffer"]
+            run.ob("R-FSM-RESET", "%s._process_byte#%s:no-read-after-reset"
+                   % (P, state), not rd_,
+                   "`%s` reads the receive buffer after reset() has emptied "
+                   "it on this pass: the slot is None (formatting it with "
+                   ":02x, or arithmetic on it, raises TypeError out of "
+                   "data_received and the rest of the read is lost)" % (
+                       unparse(rd_[0], 40) if rd_ else ""),
+                   where(mod, n_)) if rd_ else None
     run.ob("R-FSM-RESET", P + "._process_byte#progress", stay_ok,
            "a byte can be consumed in a middle state without advancing or "
            "resetting the state machine", where(mod, fn))
@@ -807,14 +878,45 @@ def _check_proto(run, world, folder, mod, c):
            % (rx, tx), where(mod, rx_node or fn),
            sample={"rule": "R-FSM-CHK", "rx": rx, "tx": tx})
     # comparison with the received checksum byte, mismatch -> reset + return
-    okc = False
-    for n in ast.walk(fn):
-        if isinstance(n, ast.If) and unparse(n.test) == "check != %s" % arg:
-            okc = any(unparse(s) == "self.reset()" for s in n.body) and any(
-                isinstance(s, ast.Return) for s in n.body)
-    run.ob("R-FSM-CHK", P + "#bad-checksum-drops", okc,
-           "a frame with a bad checksum must be dropped (reset and return)",
-           where(mod, fn))
+    # decided on the paths of the terminal state: where the comparison of
+    # the computed checksum with the received byte comes out unequal, the
+    # path resets the receiver and hands nothing on (logging aside)
+    tps = _state_paths(tbody, arg, try_prefixes=True)
+    if tps is None:
+        raise AnalysisError("R-FSM-CHK: terminal state of %s is not "
+                            "loop-free" % P)
+    n_bad = 0
+    okc = True
+    why = ""
+    for p_ in tps:
+        mism = None
+        for (t_, b_) in p_.conds:
+            if isinstance(t_, ast.Compare) and len(t_.ops) == 1 and \
+                    isinstance(t_.ops[0], (ast.Eq, ast.NotEq)) and any(
+                        isinstance(x, ast.Name) and x.id == arg
+                        for x in (t_.left, t_.comparators[0])):
+                ne = isinstance(t_.ops[0], ast.NotEq)
+                mism = (ne == b_)
+                break
+        if mism is not True or p_.kind == "raise":
+            continue
+        n_bad += 1
+        exprs = [unparse(e_[1], 80) for e_ in p_.effects
+                 if e_[0] == "expr"]
+        resets = "self.reset()" in exprs
+        hands_on = [x for x in exprs if x != "self.reset()" and
+                    not x.startswith(("_LOG.", "logging.", "self._log."))]
+        stores = [e_[0] for e_ in p_.effects if len(e_) == 2 and
+                  e_[0] not in ("expr",) and e_[0].startswith("self.") and
+                  not e_[0].startswith("self._buffer")]
+        if not resets or hands_on or stores:
+            okc = False
+            why = "reset=%s, also does %s %s" % (resets, hands_on, stores)
+    run.ob("R-FSM-CHK", P + "#bad-checksum-drops", okc and n_bad >= 1,
+           "a frame with a bad checksum must be dropped (reset and nothing "
+           "handed on); on the mismatch paths: %s" % (
+               why or "no path compares the checksum with the received "
+               "byte"), where(mod, fn))
     if c.name == "LubaProtocol":
         start_tests = [unparse(n.test) for n in ast.walk(fn)
                        if isinstance(n, ast.If)]
@@ -1182,7 +1284,7 @@ def _next_states(body, arg):
     return out
 
 
-def _state_paths(body, arg):
+def _state_paths(body, arg, try_prefixes=False):
     from .. import paths
     f2 = ast.FunctionDef(name="state", args=ast.arguments(
         posonlyargs=[], args=[ast.arg("self"), ast.arg(arg)], kwonlyargs=[],
@@ -1190,7 +1292,8 @@ def _state_paths(body, arg):
         returns=None, type_comment=None, type_params=[])
     ast.fix_missing_locations(f2)
     try:
-        return paths.summaries(f2)
+        return paths.summaries(f2, try_prefixes=try_prefixes,
+                               max_paths=20000)
     except paths.Unsupported:
         return None
 
